@@ -134,6 +134,11 @@ type DeadlineChan[T any] struct {
 // If the deadline is exceeded, Cancel is called, or Close is called,
 // err will be set to a relevant error. Always check that err is nil before using b
 func (d *DeadlineChan[T]) Recv() (b T, err error) {
+	// Observe the closed flag before draining: anything queued before Close
+	// is then visible to the drain below, so end-of-stream is never reported
+	// ahead of it
+	closed := d.closed.Load()
+
 	// Return buffered data even if the channel is canceled
 	select {
 	case b = <-d.C:
@@ -142,7 +147,7 @@ func (d *DeadlineChan[T]) Recv() (b T, err error) {
 		break
 	}
 
-	if d.closed.Load() {
+	if closed {
 		err = io.EOF
 		return
 	}
@@ -150,11 +155,24 @@ func (d *DeadlineChan[T]) Recv() (b T, err error) {
 	errChan := d.deadline.Done()
 	select {
 	case <-errChan:
+		// Data queued before the cancellation still wins
+		select {
+		case b = <-d.C:
+			return
+		default:
+		}
 		err = d.deadline.Err()
 		return
 	default:
 		select {
 		case <-errChan:
+			// Both may have become ready together: data queued before the
+			// cancellation still wins
+			select {
+			case b = <-d.C:
+				return
+			default:
+			}
 			err = d.deadline.Err()
 			return
 		case b = <-d.C:
